@@ -45,6 +45,18 @@ def specs(prop='C17'):
             return SObj(f'{self.name}[{self.n}]', {}, is_quant=bool(choose(f'{self.name}.quant', 2)),
                         **{'__class__': SObj('cls', {})})
 
+    def saved_names(fnode):
+        """locals that save a cursor position:  <name> = <cursor parameter>.idx  at the top level of the function (found
+        structurally, so that renaming them does not disturb the invariant)"""
+        import ast as _ast
+        out = {}
+        for st in fnode.body:
+            if (isinstance(st, _ast.Assign) and len(st.targets) == 1 and isinstance(st.targets[0], _ast.Name)
+                    and isinstance(st.value, _ast.Attribute) and st.value.attr == 'idx'
+                    and isinstance(st.value.value, _ast.Name) and st.value.value.id in ('pat_iter', 'tgt_iter')):
+                out[st.targets[0].id] = st.value.value.id
+        return out
+
     def mk_iter(it, ctx, name):
         ln = ctx.int(f'{name}.len')
         idx = ctx.int(f'{name}.idx')
@@ -121,7 +133,8 @@ def specs(prop='C17'):
             return {'tag_stack_depth': eq(depth(st), D + 1),
                     'pat_cursor_in_range': and_(0 <= pat._get('idx'), pat._get('idx') <= PL),
                     'tgt_cursor_in_range': and_(0 <= tgt._get('idx'), tgt._get('idx') <= TL),
-                    'saved_positions': and_(eq(env['pat_idx_saved'], P0), eq(env['tgt_idx_saved'], T0))}
+                    'saved_positions': and_(*[eq(env[nm], P0 if which == 'pat_iter' else T0)
+                                              for nm, which in saved_names(loc.node).items() if nm in env])}
         it.loop_specs[('_match__inside_list', 0)] = LoopSpec(f'{prop}.inside_list.loop', inv,
                                                              havoc_objs=lambda env: [IdxHavoc(pat, PL), IdxHavoc(tgt, TL)],
                                                              kinds={'p': lambda: None, 't': lambda: None, 'm': lambda: None})
@@ -269,7 +282,9 @@ def specs(prop='C17'):
                 tgt._set('idx', v, count=False)
 
         def inv(k, env):
-            return {'tag_stack_depth': eq(depth(st), D + 1), 'saved_position': eq(env['tgt_idx_saved'], T0)}
+            return {'tag_stack_depth': eq(depth(st), D + 1),
+                    'saved_position': and_(*[eq(env[nm], T0) for nm, which in saved_names(loc.node).items()
+                                             if which == 'tgt_iter' and nm in env])}
         import ast as _ast
         for k_, lp in enumerate(frontend.loops_of(loc.node)):
             if not isinstance(lp, _ast.While):
